@@ -14,7 +14,7 @@ from ..evidence import Run, canon_hash
 PID = "C14"
 SHARDS = {"quick": 6, "thorough": 16}
 SHARD_TIMEOUT = {"quick": 600, "thorough": 1700}
-N_RANDOM = {"quick": 900, "thorough": 60000}
+N_RANDOM = {"quick": 900, "thorough": 100000}
 
 
 def new_run():
